@@ -176,6 +176,50 @@ func streamInfo(ids []int64, r *rand.Rand) *interceptor.StreamInfo {
 
 var errSink = errors.New("sink error")
 
+// observeWrite performs one Write through w (whose downstream writer is s) and reports what the downstream
+// writer saw; payload identity, attributes and the returned values are checked here.
+func observeWrite(w interceptor.RTPWriter, s *sink, hd hdr, payLen, k int, c interface{}, fails *[]cq.ImplFailure) res {
+	h := toHeader(hd)
+	payload := make([]byte, payLen)
+	for i := range payload {
+		payload[i] = byte(i*7 + k)
+	}
+	keep := append([]byte{}, payload...)
+	attr := interceptor.Attributes{"k": k}
+	s.err = nil
+	if k%11 == 10 {
+		s.err = errSink
+	}
+	before := len(s.calls)
+	n, err := w.Write(h, payload, attr)
+	switch {
+	case len(s.calls) == before:
+		if err == nil {
+			*fails = append(*fails, cq.ImplFailure{Kind: "dropped", Detail: "no error and next writer not called", Case: c})
+		}
+
+		return res{Kind: "err"}
+	case len(s.calls) == before+1:
+		got := fromHeader(s.calls[before])
+		if n != s.ret || !errors.Is(err, s.err) || (s.err == nil && err != nil) {
+			*fails = append(*fails, cq.ImplFailure{Kind: "result-changed", Detail: fmt.Sprintf("n=%d err=%v", n, err), Case: c})
+		}
+		p := s.pay[before]
+		if len(p) != len(keep) || (len(p) > 0 && &p[0] != &payload[0]) || string(p) != string(keep) || string(payload) != string(keep) {
+			*fails = append(*fails, cq.ImplFailure{Kind: "payload-changed", Detail: "payload differs from the caller's", Case: c})
+		}
+		if s.attr[before]["k"] != k {
+			*fails = append(*fails, cq.ImplFailure{Kind: "attributes-changed", Detail: "attributes differ", Case: c})
+		}
+
+		return res{Kind: "forward", H: &got}
+	default:
+		*fails = append(*fails, cq.ImplFailure{Kind: "duplicated", Detail: "next writer called more than once", Case: c})
+
+		return res{Kind: "err"}
+	}
+}
+
 func runSeq(c seqCase, r *rand.Rand, fails *[]cq.ImplFailure) seqCase {
 	f, _ := twcc.NewHeaderExtensionInterceptor()
 	ic, _ := f.NewInterceptor("")
@@ -195,42 +239,7 @@ func runSeq(c seqCase, r *rand.Rand, fails *[]cq.ImplFailure) seqCase {
 
 			continue
 		}
-		h := toHeader(o.H)
-		payload := make([]byte, o.PayLen)
-		for i := range payload {
-			payload[i] = byte(i*7 + k)
-		}
-		keep := append([]byte{}, payload...)
-		attr := interceptor.Attributes{"k": k}
-		s.err = nil
-		if k%11 == 10 {
-			s.err = errSink
-		}
-		before := len(s.calls)
-		n, err := writers[o.Stream].Write(h, payload, attr)
-		switch {
-		case len(s.calls) == before:
-			if err == nil {
-				*fails = append(*fails, cq.ImplFailure{Kind: "dropped", Detail: "no error and next writer not called", Case: c})
-			}
-			c.Outs = append(c.Outs, res{Kind: "err"})
-		case len(s.calls) == before+1:
-			got := fromHeader(s.calls[before])
-			c.Outs = append(c.Outs, res{Kind: "forward", H: &got})
-			if n != s.ret || !errors.Is(err, s.err) || (s.err == nil && err != nil) {
-				*fails = append(*fails, cq.ImplFailure{Kind: "result-changed", Detail: fmt.Sprintf("n=%d err=%v", n, err), Case: c})
-			}
-			p := s.pay[before]
-			if len(p) != len(keep) || (len(p) > 0 && &p[0] != &payload[0]) || string(p) != string(keep) || string(payload) != string(keep) {
-				*fails = append(*fails, cq.ImplFailure{Kind: "payload-changed", Detail: "payload differs from the caller's", Case: c})
-			}
-			if s.attr[before]["k"] != k {
-				*fails = append(*fails, cq.ImplFailure{Kind: "attributes-changed", Detail: "attributes differ", Case: c})
-			}
-		default:
-			*fails = append(*fails, cq.ImplFailure{Kind: "duplicated", Detail: "next writer called more than once", Case: c})
-			c.Outs = append(c.Outs, res{Kind: "err"})
-		}
+		c.Outs = append(c.Outs, observeWrite(writers[o.Stream], s, o.H, o.PayLen, k, c, fails))
 	}
 
 	return c
@@ -475,9 +484,28 @@ func main() {
 		Name: "c15conc", Import: "IV.Check.C15Check", CaseType: "conc_case",
 		Checks: []string{"conc_spec_failures"},
 	}
+	life := &cq.Set{
+		Name: "c15life", Import: "IV.Check.C15LifeCheck", CaseType: "life_case",
+		Checks: []string{"life_mismatches", "life_spec_failures"},
+	}
+	mconc := &cq.Set{
+		Name: "c15mconc", Import: "IV.Check.C15Check", CaseType: "conc_case",
+		Checks: []string{"conc_spec_failures"},
+	}
+	all := []*cq.Set{seq, long, conc, life, mconc}
 	if o.Replay != "" {
 		var probe map[string]interface{}
 		switch cq.LoadReplay(o.Replay, &probe) {
+		case "c15life":
+			var c lifeCase
+			cq.LoadReplay(o.Replay, &c)
+			life.Cases = append(life.Cases, runLife(c, r, &fails).toCase("replay"))
+		case "c15mconc":
+			var c mconcCase
+			cq.LoadReplay(o.Replay, &c)
+			for _, x := range runMConc(c, r) {
+				mconc.Cases = append(mconc.Cases, x.toCase())
+			}
 		case "c15long":
 			var c longCase
 			cq.LoadReplay(o.Replay, &c)
@@ -493,14 +521,21 @@ func main() {
 			cq.LoadReplay(o.Replay, &c)
 			seq.Cases = append(seq.Cases, runSeq(c, r, &fails).toCase("replay"))
 		}
-		cq.Write(o, "replay", []*cq.Set{seq, long, conc}, nil, fails)
+		cq.Write(o, "replay", all, nil, fails)
 
 		return
 	}
 	for _, f := range o.CorpusFiles() {
-		var c seqCase
-		if cq.LoadReplay(f, &c) == "c15seq" {
+		var probe map[string]interface{}
+		switch cq.LoadReplay(f, &probe) {
+		case "c15seq":
+			var c seqCase
+			cq.LoadReplay(f, &c)
 			seq.Cases = append(seq.Cases, runSeq(c, r, &fails).toCase("corpus"))
+		case "c15life":
+			var c lifeCase
+			cq.LoadReplay(f, &c)
+			life.Cases = append(life.Cases, runLife(c, r, &fails).toCase("corpus"))
 		}
 	}
 	n := o.Scale(2500, 40000)
@@ -530,8 +565,27 @@ func main() {
 			Coq: cq.T(cq.Z(c.N), segs(c.Sorted)), JSON: c, Buckets: []string{fmt.Sprintf("writers-%d", w)},
 		})
 	}
+	// lifecycle histories over several factories / instances / stream handles
+	nlife := o.Scale(500, 12000)
+	for i := 0; i < nlife; i++ {
+		c, bs := genLife(r)
+		life.Cases = append(life.Cases, runLife(c, r, &fails).toCase(bs...))
+	}
+	// concurrent writers on several instances of one factory, each instance must have its own consecutive run
+	nm := o.Scale(2, 12)
+	for i := 0; i < nm; i++ {
+		w := []int{2, 4, 8}[i%3]
+		c := mconcCase{Instances: 2 + i%2, Writers: w, Streams: 1 + r.Intn(3), Per: int64(66000/w + r.Intn(100)), Churn: i%2 == 1}
+		for _, x := range runMConc(c, r) {
+			mconc.Cases = append(mconc.Cases, x.toCase())
+		}
+	}
 	cq.Write(o, "seq: 1..4 streams (negotiated ids 1..14, two entries, not negotiated, ids 0/15/16/255/256/261) x 1..40 writes over header shapes "+
 		"(nil, no extension, one-byte others/same id, two-byte, RFC3550 profile, empty blocks), payload 0..1460, every 11th downstream write failing; "+
-		"non-trivial = at least 2 forwarded packets; long: >2^16 writes on one stream; conc: 2/4/16 goroutines x >=70000 writes over 1..4 streams",
-		[]*cq.Set{seq, long, conc}, nil, fails)
+		"non-trivial = at least 2 forwarded packets; long: >2^16 writes on one stream; conc: 2/4/16 goroutines x >=70000 writes over 1..4 streams; "+
+		"life: histories of API calls (NewInterceptor via factory / Registry.Build / zero value on 1..2 factories and 1..3 instances, BindLocalStream, "+
+		"UnbindLocalStream, writes through current and held writers, Close, BindRemoteStream/UnbindRemoteStream/BindRTCPReader/BindRTCPWriter) over 1..7 stream handles, "+
+		"scenarios (interleaved instances of one factory, unbind-all then bind again / held writers, close, bind-unbind churn) and free random walks; "+
+		"mconc: 2..3 instances of one factory x 2/4/8 goroutines each x >2^16 writes per instance, with and without a lifecycle goroutine per instance",
+		all, nil, fails)
 }
